@@ -115,13 +115,33 @@ type held struct {
 type evRec struct {
 	mu     sync.Mutex
 	events []*types.Status
+	ch     chan struct{}
 }
 
 func (r *evRec) OnConnected() {}
 func (r *evRec) OnEvent(s *types.Status) {
 	r.mu.Lock()
 	r.events = append(r.events, s)
+	ch := r.ch
 	r.mu.Unlock()
+	if ch != nil {
+		select {
+		case ch <- struct{}{}:
+		default:
+		}
+	}
+}
+
+// waitCount waits (without polling) until n events have been recorded or the time is up.
+func (r *evRec) waitCount(n int, limit time.Duration) {
+	deadline := time.After(limit)
+	for r.count() < n {
+		select {
+		case <-r.ch:
+		case <-deadline:
+			return
+		}
+	}
 }
 func (r *evRec) OnError(error) bool { return true }
 func (r *evRec) count() int {
@@ -251,6 +271,25 @@ func checkHistory(h history) *rp.Fail {
 			d.Reset(validReply(cs.Call, n))
 			var res api.Result
 			wantMethod, wantAddr := h.Cfg.Route(cs.Call.Serial, cs.Call.Op == "GetDevices")
+			if cs.Call.Op == "GetDevices" && s.J%2 == 0 {
+				// the same controller answers twice with byte-identical replies (a multi-homed host, a bridged network), another one
+				// in between: three entries, each with storage of its own
+				first, other := validReply(cs.Call, n), validReply(cs.Call, n+5)
+				spec.PutLE32(other[4:], cs.Call.Serial^0x0f0f)
+				d.Reset(first, other, append([]byte(nil), first...))
+				list, err := u.GetDevices()
+				if err == nil && len(list) == 3 {
+					want := api.DeviceRec(list[2]).String()
+					mutateValue(list[:1])
+					for i := range list[0].MacAddress {
+						list[0].MacAddress[i] = 0xe0
+					}
+					if got := api.DeviceRec(list[2]).String(); got != want {
+						return rp.Failf("result/entries-share-storage", "step %d: GetDevices returned three entries (the first and the third from byte-identical replies); modifying the addresses of the first in place changed the third:\n  before: %s\n  now:    %s", n, want, got)
+					}
+				}
+				d.Reset(validReply(cs.Call, n))
+			}
 			if cs.Call.Op == "GetDevices" {
 				list, err := u.GetDevices()
 				res.Err = err
@@ -326,7 +365,7 @@ func checkHistory(h history) *rp.Fail {
 			}
 		case "listen":
 			if rec == nil {
-				rec = &evRec{}
+				rec = &evRec{ch: make(chan struct{}, 64)}
 				q = make(chan os.Signal)
 				done = make(chan error, 1)
 				go func() { done <- u.Listen(rec, q) }()
@@ -346,13 +385,32 @@ func checkHistory(h history) *rp.Fail {
 			copy(evt, validReply(spec.Call{Op: "GetStatus", Serial: 405419896 + uint32(n)}, n))
 			have := rec.count()
 			d.Push(evt)
-			for i := 0; i < 40000 && rec.count() == have; i++ {
-				time.Sleep(20 * time.Microsecond)
-			}
+			rec.waitCount(have+1, 800*time.Millisecond)
 			if rec.count() != have+1 {
 				return rp.Failf("uhppote.Listen/no-event", "step %d: pushed a valid event, got %d new callbacks", n, rec.count()-have)
 			}
 			st := rec.at(have)
+			if s.J%3 == 0 {
+				// the very same datagram again (a retransmission): the listener has meanwhile modified the status it was given
+				// for the first one - the second callback gets a status of its own, with the values of the datagram
+				want := api.StatusRec(*st).String()
+				mutateValue(st)
+				st.Event.Index ^= 0x5a5a
+				st.SequenceId = 0
+				d.Push(evt)
+				rec.waitCount(have+2, 800*time.Millisecond)
+				if rec.count() != have+2 {
+					return rp.Failf("uhppote.Listen/no-event", "step %d: pushed the same valid event a second time, got %d new callbacks", n, rec.count()-have-1)
+				}
+				second := rec.at(have + 1)
+				if second == st {
+					return rp.Failf("uhppote.Listen/same-status-delivered-twice", "step %d: two consecutive byte-identical events were delivered as the very same *types.Status", n)
+				}
+				if got := api.StatusRec(*second).String(); got != want {
+					return rp.Failf("uhppote.Listen/event-shares-storage-with-earlier-event", "step %d: the second of two byte-identical events was delivered after the listener had modified the status of the first; it carries\n  %s\nthe datagram says\n  %s", n, got, want)
+				}
+				st = second
+			}
 			results = append(results, held{api.Result{Rec: api.StatusRec(*st), Value: st}, api.StatusRec(*st).String(), fmt.Sprintf("listener event (step %d)", n)})
 			// re-reading st later re-computes the record from the same object:
 		case "clone":
